@@ -263,21 +263,27 @@ fn fa_rec(r: &fasta::RefRecord) -> String {
         r.desc().map(|d| d.is_ok()).unwrap_or(true) as u8,
         r.id_desc().is_ok() as u8
     );
-    // the three ways to get id / description must agree
+    // the three ways to get id / description must agree, and so must the full sequence (borrowed or not), the owned
+    // sequence and the sequence of the owned copy
+    let owned_copy = r.to_owned_record();
     let agree = idb == r.id_bytes()
         && descb == r.desc_bytes()
         && match r.id_desc() {
             Ok((i, d)) => i.as_bytes() == idb && d.map(|x| x.as_bytes()) == descb,
             Err(_) => true,
-        };
+        }
+        && r.full_seq().as_ref() == &r.owned_seq()[..]
+        && owned_copy.seq == r.owned_seq()
+        && owned_copy.head == r.head();
     format!(
-        "h={}:l={}:r={}:n={}:b={}:o={}:u={}:w={}:x={}:i={}:d={}:v={}{}",
+        "h={}:l={}:r={}:n={}:b={}:o={}:f={}:u={}:w={}:x={}:i={}:d={}:v={}{}",
         hex(r.head()),
         lines,
         hex(r.seq()),
         n,
         if b { 1 } else { 0 },
         hex(&r.owned_seq()),
+        hex(r.full_seq().as_ref()),
         hex(&u),
         hex(&w.out),
         hex(&x.out),
@@ -532,6 +538,11 @@ fn fq_rec(r: &fastq::RefRecord) -> String {
         && match r.id_desc() {
             Ok((i, d)) => i.as_bytes() == idb && d.map(|x| x.as_bytes()) == descb,
             Err(_) => true,
+        }
+        && {
+            // the owned copy exposes the values of the borrowed record
+            let oc = r.to_owned_record();
+            oc.head == r.head() && oc.seq == r.seq() && oc.qual == r.qual()
         };
     format!(
         "h={}:s={}:q={}:u={}:w={}:i={}:d={}:v={}{}",
